@@ -229,6 +229,18 @@ Example c03_filter_example :
   filter_one (resolve_constraint "a<1_hg") "1_git" [] = true.
 Proof. repeat split; vm_compute; reflexivity. Qed.
 
+(* shared-library names (finding C03-F2): the 0.V rescaling of so: versions without a release suffix is found by cutting at the
+   first "=", so a provide so:libx.so.1=6 is compared as 0.6 while the constraint so:libx.so.1>1 keeps 1: 6 > 1 is answered
+   false.  With an operator that contains "=" both sides move and the order is kept (instances below; the soname stage judges
+   every same-kind pair on the real code). *)
+Theorem c03_soname_scale_refuted :
+  exists a, parse_version (c_version (resolve_constraint "so:libx.so.1=6")) = Some a /\
+            satisfied_by (resolve_constraint "so:libx.so.1>1") a = Some false /\
+            satisfied_by (resolve_constraint "so:libx.so.1>=1") a = Some true /\
+            satisfied_by (resolve_constraint "so:libx.so.1<=1") a = Some false.
+Proof. eexists. repeat split; vm_compute; reflexivity. Qed.
+Print Assumptions c03_soname_scale_refuted.
+
 (* non-vacuity: real version strings parse, decode and compare *)
 Example c03_example :
   exists a b va vb,
